@@ -840,7 +840,7 @@ func (w *world) judgeServed(stage string, l int) {
 				// no fault, no leader change: the leader that answered the successful request serves
 				// the cluster without that request's first region, i.e. something other than the
 				// successful request shaped what the cluster is
-				r.Violation("bootstrap:first-region-not-served:"+w.quiet, fmt.Sprintf("after the bootstrap race (same leader term, no fault) GetRegionByID(%d) returns no region; the successful request carried %v", w.winner.Region.GetId(), w.winner.Region),
+				r.Violation("bootstrap:first-region-not-served:"+w.quiet, fmt.Sprintf("after the bootstrap race (%s, no fault injected) GetRegionByID(%d) returns no region; the successful request carried %v", w.quiet, w.winner.Region.GetId(), w.winner.Region),
 					w.witness(map[string]interface{}{"stage": stage}))
 				return
 			}
@@ -857,13 +857,13 @@ func (w *world) judgeServed(stage string, l int) {
 		// by key, and the number of regions served
 		gr, err := pd.GetRegion(ctx, &pdpb.GetRegionRequest{Header: hdr, RegionKey: []byte("any-key")})
 		if err == nil && gr.GetHeader().GetError() == nil && (gr.Region == nil || !proto.Equal(gr.Region, w.winner.Region)) {
-			r.Violation("bootstrap:first-region-not-served:"+w.quiet, fmt.Sprintf("after the bootstrap race (same leader term, no fault) GetRegion(key) returns %v; the successful request carried %v", gr.Region, w.winner.Region),
+			r.Violation("bootstrap:first-region-not-served:"+w.quiet, fmt.Sprintf("after the bootstrap race (%s, no fault injected) GetRegion(key) returns %v; the successful request carried %v", w.quiet, gr.Region, w.winner.Region),
 				w.witness(map[string]interface{}{"stage": stage}))
 			return
 		}
 		sr, err := pd.ScanRegions(ctx, &pdpb.ScanRegionsRequest{Header: hdr, Limit: 16})
 		if err == nil && sr.GetHeader().GetError() == nil && (len(sr.RegionMetas) != 1 || !proto.Equal(sr.RegionMetas[0], w.winner.Region)) {
-			r.Violation("bootstrap:first-region-not-served:"+w.quiet, fmt.Sprintf("after the bootstrap race (same leader term, no fault) ScanRegions returns %d regions %v; the successful request carried %v", len(sr.RegionMetas), sr.RegionMetas, w.winner.Region),
+			r.Violation("bootstrap:first-region-not-served:"+w.quiet, fmt.Sprintf("after the bootstrap race (%s, no fault injected) ScanRegions returns %d regions %v; the successful request carried %v", w.quiet, len(sr.RegionMetas), sr.RegionMetas, w.winner.Region),
 				w.witness(map[string]interface{}{"stage": stage}))
 			return
 		}
